@@ -20,18 +20,18 @@ import (
 type Kind int
 
 const (
-	KEntry Kind = iota
-	KExit       // normal return (explicit or falling off the end)
-	KStmt       // simple statement (assign, expr, incdec, send, go, defer, return, var spec)
-	KCond       // leaf boolean condition in branch position
-	KCase       // switch case test Tag == Expr
-	KTypeCase   // type switch case test Tag.(Expr)
-	KRange      // range loop head: true = next iteration, false = done
-	KSelect     // select head (nondeterministic successors)
-	KTrue       // outcome node
-	KFalse      // outcome node
-	KJoin       // virtual
-	KAbort      // panic / os.Exit: path ends, not an exit
+	KEntry    Kind = iota
+	KExit          // normal return (explicit or falling off the end)
+	KStmt          // simple statement (assign, expr, incdec, send, go, defer, return, var spec)
+	KCond          // leaf boolean condition in branch position
+	KCase          // switch case test Tag == Expr
+	KTypeCase      // type switch case test Tag.(Expr)
+	KRange         // range loop head: true = next iteration, false = done
+	KSelect        // select head (nondeterministic successors)
+	KTrue          // outcome node
+	KFalse         // outcome node
+	KJoin          // virtual
+	KAbort         // panic / os.Exit: path ends, not an exit
 )
 
 func (k Kind) String() string {
@@ -97,11 +97,11 @@ type targets struct {
 type lblock struct{ gotoN, brk, cont *Node }
 
 type builder struct {
-	g       *Graph
-	cur     *Node // node from which the next one will be linked; nil = unreachable
-	tg      *targets
-	labels  map[string]*lblock
-	noRet   func(*ast.CallExpr) bool
+	g      *Graph
+	cur    *Node // node from which the next one will be linked; nil = unreachable
+	tg     *targets
+	labels map[string]*lblock
+	noRet  func(*ast.CallExpr) bool
 }
 
 func (b *builder) newNode(k Kind) *Node {
